@@ -56,12 +56,55 @@ def handle(req):
         ans.setdefault('order', []).append(_order_verdict(x, y) if not opts.get('sort_keys', True) else None)
         if n == 0:
             ans['exact'] = exact
+            ans['multidoc'] = _multidoc(req, x, t, dumper, opts)
             if y is not None or exact:
                 ans['redump'] = dump(y, dumper, opts)
                 ans['docorder'] = (dump(y, dumper, dict(opts, sort_keys=False)) == t) if (exact and not _has_set(y, set())) else None
     ans['set_order'] = ','.join(first_set[0]) if first_set else ''
     del junk
     return ans
+
+
+def _doc_events(text):
+    docs, cur = [], None
+    for ev in yaml.parse(text, Loader=yaml.SafeLoader):
+        name = type(ev).__name__
+        if name in ('StreamStartEvent', 'StreamEndEvent'):
+            continue
+        if name == 'DocumentStartEvent':
+            cur = []
+            docs.append(cur)
+        d = {k: v for k, v in vars(ev).items() if k not in ('start_mark', 'end_mark', 'explicit')}
+        cur.append([name, observe._plain(d)])
+    return docs
+
+
+def _multidoc(req, x, t, dumper, opts):
+    """Anchor names (and everything else) are a function of the document alone: inside
+    dump_all([w, x, x']) - w a small document with two anchors of its own, x' a second, unshared build
+    of the same recipe - the events of x and of x' equal the events of dump(x).  Returns None or a
+    description of the difference."""
+    try:
+        shared = [0]
+        w = {'p': shared, 'q': shared, 'r': [shared]}
+        x2 = values.build(req['recipe'], perm=req['perms'][0])
+        o = dict(opts)
+        if 'version' in o:
+            o['version'] = tuple(o['version'])
+        stream = yaml.dump_all([w, x, x2], Dumper=getattr(yaml, dumper), **o)
+        docs = _doc_events(stream)
+        alone = _doc_events(t)
+    except yaml.YAMLError as exc:
+        return {'error': type(exc).__name__}
+    if len(docs) != 3 or len(alone) != 1:
+        return {'documents': [len(docs), len(alone)]}
+    for n in (1, 2):
+        if docs[n] != alone[0]:
+            for i, (a, b) in enumerate(zip(alone[0], docs[n])):
+                if a != b:
+                    return {'document': n, 'event': i, 'alone': a, 'in_stream': b}
+            return {'document': n, 'events': [len(alone[0]), len(docs[n])]}
+    return None
 
 
 def _has_set(v, seen):
